@@ -77,7 +77,7 @@ func (RaceScenario) GenCase(r *rand.Rand, prop string) interface{} {
 	ids := []string{"1", "2", "3"}
 	for i, n := 0, 3+r.IntN(10); i < n; i++ {
 		id := pick(r, ids...)
-		c.Reqs = append(c.Reqs, pick(r, "get.test.model."+id, "call.test.model."+id+".set", "call.test.model."+id+".query", "access.test.model."+id, "get.test.shared."+id, "call.test.shared."+id+".set", "get.test.par."+id, "call.test.par."+id+".set", "call.test.par."+id+".query", "get.test.item."+id, "get.test.items"))
+		c.Reqs = append(c.Reqs, pick(r, "get.test.model."+id, "call.test.model."+id+".set", "call.test.model."+id+".query", "access.test.model."+id, "get.test.shared."+id, "call.test.shared."+id+".set", "get.test.par."+id, "call.test.par."+id+".set", "call.test.par."+id+".query", "call.test.par."+id+".bad", "get.test.item."+id, "get.test.items"))
 	}
 	for pi, np := 0, 1+r.IntN(2); pi < np; pi++ {
 		var sc []string
@@ -257,6 +257,9 @@ func (RaceScenario) Execute(sim *sched.Sim, ci interface{}, prop string, race bo
 	svc.Handle("par.$id", res.Parallel(true),
 		res.GetModel(func(r res.ModelRequest) { sim.Yield("handler", "par"); r.Model(map[string]int{"p": 1}) }),
 		res.Call("set", func(r res.CallRequest) { r.OK(nil) }),
+		// a value that cannot be encoded: the error path of the response
+		// encoder runs, then other workers encode their responses
+		res.Call("bad", func(r res.CallRequest) { r.OK(map[string]interface{}{"c": make(chan int)}) }),
 		res.Call("query", func(r res.CallRequest) {
 			r.QueryEvent(func(qr res.QueryRequest) {
 				if qr != nil {
